@@ -47,7 +47,7 @@ def setup(d, content, extra=None):
     open(os.path.join(d, pl.P_MAIN.decode()), "ab").close()
     p = os.path.join(d, PRE)
     for f in os.listdir(d):
-        if f.startswith(PRE) or f in ("real", "tmp-target"):
+        if f.startswith(PRE) or f in ("real", "tmp-target", "second-link"):
             rm_any(os.path.join(d, f))
     if extra.get("link"):
         os.makedirs(os.path.join(d, "real"))
@@ -56,6 +56,8 @@ def setup(d, content, extra=None):
             open(os.path.join(d, "real", PRE), "wb").write(content)
     elif content is not None:
         open(p, "wb").write(content)
+        if extra.get("hard"):
+            os.link(p, os.path.join(d, "second-link"))        # the preload file has a second hard link (st_nlink = 2)
     t = extra.get("tmp")
     if t == "symlink":
         open(os.path.join(d, "tmp-target"), "wb").write(b"/lib/target-of-stale-link.so\n")
@@ -70,7 +72,7 @@ def extra_str(extra):
     if not extra:
         return ""
     t = extra.get("tmp")
-    return " [%s%s%s%s]" % ("preload file is a symlink; " if extra.get("link") else "",
+    return " [%s%s%s%s%s]" % ("preload file has a second hard link; " if extra.get("hard") else "", "preload file is a symlink; " if extra.get("link") else "",
                             ("started with fd %s closed; " % ",".join(map(str, extra["closed"]))) if extra.get("closed") else "",
                             ("file size limit %d bytes, SIGXFSZ ignored; " % extra["fsize"]) if extra.get("fsize") is not None else "",
                             "no stale temp file" if t is None else ("stale temp file: %s" % (t if isinstance(t, str) else "%d bytes %r" % (len(t), t[:40]))))
@@ -80,14 +82,14 @@ def extra_enc(extra):
     extra = extra or {}
     t = extra.get("tmp")
     return {"link": bool(extra.get("link")), "tmp": None if t is None else (t if isinstance(t, str) else "hex:" + hexs(t)),
-            "closed": list(extra.get("closed") or []), "fsize": extra.get("fsize")}
+            "closed": list(extra.get("closed") or []), "fsize": extra.get("fsize"), "hard": bool(extra.get("hard"))}
 
 
 def extra_dec(e):
     e = e or {}
     t = e.get("tmp")
     return {"link": bool(e.get("link")), "tmp": None if t is None else (unhex(t[4:]) if t.startswith("hex:") else t),
-            "closed": list(e.get("closed") or []), "fsize": e.get("fsize")}
+            "closed": list(e.get("closed") or []), "fsize": e.get("fsize"), "hard": bool(e.get("hard"))}
 
 
 def state(d):
@@ -229,6 +231,8 @@ def with_states(run, cs, news):
             out.append((a, c, n, {"tmp": t}))
         out.append((a, c, n, {"link": True}))
         out.append((a, c, n, {"link": True, "tmp": n_ + b"#tail\n"}))
+        if c is not None:
+            out.append((a, c, n, {"hard": True}))
         # started without stdin / stdout / stderr: the next descriptor opened IS that number
         for closed in ([0], [1], [2], [0, 1, 2]):
             out.append((a, c, n, {"closed": closed}))
@@ -383,7 +387,7 @@ def corpus_plans():
                     if len(f) in (6, 8, 10) and not line.startswith("#"):
                         extra = None
                         if len(f) >= 8:      # + temp-file state (- | hex:<hex> | symlink | dir), preload file is a symlink (0|1)
-                            extra = extra_dec({"tmp": None if f[6] == "-" else f[6], "link": f[7] == "1"})
+                            extra = extra_dec({"tmp": None if f[6] == "-" else f[6], "link": f[7] == "1", "hard": f[7] == "h"})
                         if len(f) == 10:     # + descriptors closed at start (- | 0,1,2), file size limit (- | bytes)
                             extra["closed"] = [] if f[8] == "-" else [int(x) for x in f[8].split(",")]
                             extra["fsize"] = None if f[9] == "-" else int(f[9])
